@@ -4,6 +4,7 @@ from __future__ import annotations
 import ast
 
 from ..cfg import CFG
+from ..core import ordkey
 from ..core import (AnalysisError, DefRef, NotConst, Ref, call_name, calls_in, dotted, enclosing_conditions, expand_aliases, func_params, get_kw,
                     norm, qualname_of, single_assign_aliases, walk_no_nested)
 
@@ -249,7 +250,7 @@ def run(ctx):
               f"the part suffix `{norm(suf.value)}` truncates the part number (slice/modulo): once the number outgrows the suffix length an earlier part's name is reused and that "
               "part is overwritten", suf, "suffix pads the part number and never truncates it", key="R17.4:SplitWriter._next_path:suffix-truncates")
     bump = [st for st in walk_no_nested(np_) if isinstance(st, ast.AugAssign) and norm(st.target) == "self.file_count"]
-    ctx.check(len(bump) == 1 and suf.lineno < bump[0].lineno, "R17.4", "SplitWriter._next_path:counter", "file_count is not advanced once per part after use", np_, "file_count += 1 after use")
+    ctx.check(len(bump) == 1 and ordkey(suf) < ordkey(bump[0]), "R17.4", "SplitWriter._next_path:counter", "file_count is not advanced once per part after use", np_, "file_count += 1 after use")
     # stdout detection decides whether the output is split at all: a target given as scheme://NAME puts NAME in the URL's netloc and a bare
     # NAME in its path, so a test that does not consult both cannot tell a file target from stdout
     si = ctx.anchor_func("flow.record.adapter.split.SplitWriter.__init__")
@@ -323,4 +324,4 @@ def _same_guarded_block(a, b, cfg) -> bool:
         pb = getattr(pb, "_parent", None)
     while pa is not None and not isinstance(pa, ast.If):
         pa = getattr(pa, "_parent", None)
-    return pa is not None and pa is pb and a.lineno < b.lineno
+    return pa is not None and pa is pb and ordkey(a) < ordkey(b)
